@@ -79,6 +79,10 @@ def expression_node_reevaluates_contract(expression, resolver, tok, v1, v2):
     w1 = node.get_value_string_len()
     scope.add_symbol("e", v2)
     check("value_follows_the_binding_at_the_time_of_the_call", node.get_value() == v2)
+    # ... and so does the width guess derived from it (the same source operand expanded twice -- macro body, loop body -- with values of different size)
+    w2 = node.get_value_string_len()
+    if 0 <= v1 and v1 < 0x100 and 0x100 <= v2 and v2 < 0x10000:
+        check("width_guess_follows_the_binding", w1 <= 2 and 3 <= w2 and w2 <= 4)
     inner_scope = resolver.scopes[1]
     resolver.current_scope = inner_scope
     check("value_follows_the_current_scope", node.get_value() == inner_scope.symbols["e"])
